@@ -9,8 +9,8 @@ CONSTANTS
   MaxFail = 2
   MaxStops = 3
   Inflights = {1, 2}
-  Hws = {99}
-  Caps = {99}
+  Hws = {3, 99}
+  Caps = {2, 99}
   Effs = {FALSE, TRUE}
   Unbounded = 99
   Canonical = FALSE
